@@ -11,6 +11,7 @@ import traceback
 
 from .model import Program, AnalysisError
 from .report import Ctx, emit
+from .props.common import run_property as run_rules
 
 PROPS = [f"C{n:02d}" for n in range(1, 21)]
 
@@ -19,7 +20,7 @@ def run_property(prop: str, tier: str, program: Program, seed: int, quiet: bool 
     t0 = time.time()
     mod = importlib.import_module(f"sa.props.{prop.lower()}")
     ctx = Ctx(program, prop, tier)
-    mod.check(ctx)
+    run_rules(ctx)
     ctx.finish()
     if tier == "thorough":
         from . import selfcheck
@@ -53,7 +54,7 @@ def main(argv=None) -> int:
             prop = rep["property"]
             mod = importlib.import_module(f"sa.props.{prop.lower()}")
             ctx = Ctx(program, prop, "quick")
-            mod.check(ctx)
+            run_rules(ctx)
             ctx.finish()
             hit = [f for f in ctx.findings if f.key == rep["key"]]
             if hit:
